@@ -3,6 +3,10 @@
 MC   PollLoop: select loop x waker threads x signal pipe x peer (safety:
      WakeSafe, InputOK, OrderOK, NoTear; liveness WakeLive under fairness of
      the polling thread; WakeQueued action property).
+     SizeMode: escape-sequence size mode (request / answer / Resize against
+     frames, flushes and frames_drop): NoLostResize, KnownAgrees, Monotone,
+     EventuallyTold; two controls (the tree as found, the rejected first
+     repair) must violate NoLostResize.
 DRV  c17-pty: the real terminal object on a pseudo-terminal; seeded sessions
      with concurrent wake calls, SIGWINCH, typed keys, frames beyond the pty
      buffer, frame drops, polls of every timeout kind, and release after a
@@ -30,6 +34,7 @@ def run(ctx):
         elif acts:
             lib.require_coverage(r, acts)
         ctx.mc.append(lib.mc_record(name, r))
+    pty.size_mode_controls(ctx)
     n = 0
     if not ctx.replay:
         n = pty.sessions(ctx, "C17")
